@@ -52,6 +52,22 @@ def gen_cases(chk):
                 rel = 1e-12
                 data = "g:1:%x:%x:%s:%s" % (rng.getrandbits(24), n, dbits(scale), dbits(off))
                 rt.append("rt %x %s %s %x %s %s %s %s %s" % (ty, tup5(t), tup5(t), mode, dbits(absb), dbits(rel), dbits(pwr), cfg, data))
+    # every kernel-level raw-copy guard observed directly (best speed: no wrapper between the kernel and the caller), independent of the
+    # random stream: ten element types x ranks 1..4 x both kernel families, incompressible data, absolute bound far below the noise
+    for t in ((1500,), (37, 41), (11, 12, 13), (5, 6, 7, 8)):
+        n = 1
+        for v in t:
+            n *= v
+        for ty in range(10):
+            for cfg in (("szMode=SZ_BEST_SPEED", "withLinearRegression=NO;szMode=SZ_BEST_SPEED") if ty < 2 else ("szMode=SZ_BEST_SPEED",)):
+                if ty < 2:
+                    scale, off, absb = 1.0, 0.0, 1e-30
+                else:
+                    scale = 100.0 if ES[ty] == 1 else 1e4 if ES[ty] == 2 else 1e9
+                    off, absb = (scale * 1.01 if ty in (2, 4, 6, 8) else 0.0), 1.0
+                for kind in ((1, 7) if ty < 2 else (1,)):      # 7: random sign, mantissa and 40 binades (nothing for the exact-value coder to share)
+                    data = "g:%d:%x:%x:%s:%s" % (kind, 0x5a5a00 + ty * 16 + len(t), n, dbits(scale), dbits(off))
+                    rt.append("rt %x %s %s 0 %s %s 0 %s %s" % (ty, tup5(t), tup5(t), dbits(absb), dbits(1e-12), cfg, data))
     # constant arrays of any length: O(1)
     for n in [21, 22, 100, 10000] + ([1000000] if thorough else []) + [1, 8, 9, 16, 17, 20]:
         for ty in range(10):
@@ -148,14 +164,20 @@ def run(chk):
             chk.violation("lossless wrapper died on `%s`: %s" % (c, r[:120]), {"case": c, "impl": r[:300], "variant": "asan"})
             continue
         n, cs = int(d["n"], 16), int(d["csize"], 16)
+        be = int(c.split(" ")[1], 16)
+        # hypothesis of C07_size_bound_backends (Size.v: zstd_worst / deflate_bound), per back end
+        doc_bound = (n + 13 + 3 * (n // 131072 + 1)) if be == 1 else (n + n // 4096 + n // 16384 + n // 33554432 + 13)
+        if cs > doc_bound:
+            chk.violation("the %s back end returned %d bytes for %d input bytes, above its documented worst case %d (the hypothesis of C07_size_bound_backends) on `%s`"
+                          % ("zstd" if be == 1 else "zlib", cs, n, doc_bound, c), {"case": c, "impl": r[:300], "variant": "asan"})
         if cs > n + n // 3277 + 40:
             chk.violation("the lossless wrapper reports %d bytes for %d input bytes (more than input + input/3277 + 40: the worst-case framing the size bound rests on)%s on `%s`"
                           % (cs, n, "; the wrapped bytes do not unwrap to the input" if d.get("rt") == "0" else "", c), {"case": c, "impl": r[:300], "variant": "asan"})
     chk.cov["traces_validated_against_impl"] = len(rt) + len(lz)
     chk.cov["rule"] = ("incompressible arrays (uniform noise, bounds down to 1e-30, ranges 1e-30..1e30) of all ten element types, ranks 1..4, five bound modes incl. "
                        "PW_REL, ten configurations (both back ends, all levels, fixed/auto intervals, both kernel families, best-speed): size <= raw + 128 + 0.1%; "
-                       "constant arrays of 1..1e4 (1e6) elements: < 64 bytes; the theorem's back-end hypothesis wrap(s) <= s + s/3277 + 40 sampled on "
-                       "random strings for both back ends and their levels")
+                       "constant arrays of 1..1e4 (1e6) elements: < 64 bytes; the theorems' back-end hypotheses (wrap(s) <= s + s/3277 + 40, and per back end "
+                       "wrap(s) <= zstd_worst(s) / deflate_bound(s) of C07_size_bound_backends) sampled on random strings for both back ends and their levels")
     chk.cov["input_distribution"] = {"rt": len(rt), "lz": len(lz)}
     for c in rt[:2] + lz[:1]:
         chk.sample(c[:200])
